@@ -172,5 +172,7 @@ def run(ctx):
     for inst_, v_ in sorted(_c01h.handler_sites(db).items()):
         r9.check(v_[0], inst_, v_[1], v_[2], v_[3])
     r9.expect_min(1)
+    for inst_, v_ in sorted(_lt8.fmtqfn_sites(db, rep, db.program('qmail-queue')).items()):
+        r1.check(v_[0], inst_, v_[1], v_[2], v_[3])
     rep.assume('the step from these per-program premises to the global invariant is the argument of INTERNALS.md (not machine-checked)',
                'inode numbers are unique; stat/unlink/link act on the named file', 'fsync durability; synchronous directory operations')
